@@ -71,21 +71,27 @@ def sigOf (args : List Arg) : List (String × String) := args.map fun a => (tyTo
 
 def escapeKeyword (kws : List String) (n : String) : String := if kws.contains n then n ++ "_" else n
 
+/-- Python name of a method binding: ipython specials, then keyword escaping -/
+def methodPyName (m : IMethod) (methodSuffix : String) : String :=
+  let cppMethod := m.toCpp
+  let py1 := if Gen.ipythonSpecialMethods.contains cppMethod then "_repr_" ++ cppMethod ++ "_" else m.name ++ methodSuffix
+  escapeKeyword Gen.pythonKeywords py1
+
+/-- the forwarding lambda `_wrap_method` emits for an ordinary method / static method -/
+def methodLambda (cfg : Cfg) (m : IMethod) (cppClass : String) (methodSuffix : String) : LambdaDef :=
+  { pyName := methodPyName m methodSuffix, isStatic := m.isStatic,
+    selfClass := if m.isStatic then none else some cppClass,
+    params := sigOf m.args, returns := !isVoid m.ret,
+    caller := if m.isStatic then cppClass ++ "::" else "self->", cppName := m.toCpp,
+    pyArgs := pyArgsOf m.args,
+    doc := cfg.docs.map fun f => f cppClass m.toCpp (m.args.map (·.name)),
+    isPrint := m.name == "print" }
+
 /-- `_wrap_method` (methods and static methods of a class) -/
 def emitMethod (cfg : Cfg) (m : IMethod) (cppClass : String) (methodSuffix : String) : List ClassItem :=
-  let cppMethod := m.toCpp
-  if cppMethod == "serialize" || cppMethod == "serializable" then
+  if m.toCpp == "serialize" || m.toCpp == "serializable" then
     if cfg.useBoost then [.serialization cppClass] else []
-  else
-    let py0 := m.name ++ methodSuffix
-    let py1 := if Gen.ipythonSpecialMethods.contains cppMethod then "_repr_" ++ cppMethod ++ "_" else py0
-    let py := escapeKeyword Gen.pythonKeywords py1
-    let isMethod := !m.isStatic
-    let doc := cfg.docs.map fun f => f cppClass cppMethod (m.args.map (·.name))
-    [.lam { pyName := py, isStatic := m.isStatic, selfClass := if isMethod then some cppClass else none,
-            params := sigOf m.args, returns := !isVoid m.ret,
-            caller := if isMethod then "self->" else cppClass ++ "::", cppName := cppMethod,
-            pyArgs := pyArgsOf m.args, doc := doc, isPrint := m.name == "print" }]
+  else [.lam (methodLambda cfg m cppClass methodSuffix)]
 
 def stripStr (s : String) : String := s.trimAscii.toString
 
@@ -117,25 +123,29 @@ def enumCpp (p : List String) (name : String) : String := tnToCpp (typenameOfPat
 
 def lowerStr (s : String) : String := String.ofList (s.toList.map fun c => if 'A' ≤ c && c ≤ 'Z' then Char.ofNat (c.toNat + 32) else c)
 
+/-- the bindings registered on a class, in emission order -/
+def classItems (cfg : Cfg) (c : IClass) : List ClassItem :=
+  let cppClass := c.toCpp
+  (c.ctors.map fun k => ClassItem.init (k.args.map fun a => tyToCpp a.ctype) (pyArgsOf k.args))
+  ++ emitMethods cfg c.methods cppClass
+  ++ emitMethods cfg c.statics cppClass
+  ++ (c.dunders.map fun d => ClassItem.dunder d.1 cppClass (sigOf d.2) (pyArgsOf d.2))
+  ++ (c.props.map fun p => ClassItem.prop p.ctype.quals.isConst p.name cppClass)
+  ++ emitOps c.ops cppClass
+
+/-- the `py::class_` statement of a class -/
+def classStmt (cfg : Cfg) (c : IClass) : PyStmt :=
+  PyStmt.cls c.toCpp (c.parentClass.map tnToCpp) (moduleVar cfg c.nsPath) c.name
+    (if c.enums.isEmpty then none else some (lowerStr c.name)) (classItems cfg c)
+
+/-- the enums of a class (emitted after the class statement, on the class instance variable);
+    class-scoped enums have no parent link: `enum.namespaces()` is `['']` -/
+def classEnums (c : IClass) : List PyStmt :=
+  c.enums.map fun e => PyStmt.enum (c.toCpp ++ "::" ++ enumCpp [""] e.name) (lowerStr c.name) e.name e.enumerators true
+
 /-- `wrap_instantiated_class` + `wrap_enums` -/
 def emitClass (cfg : Cfg) (c : IClass) : List PyStmt :=
-  let cppClass := c.toCpp
-  let inst := lowerStr c.name
-  -- class-scoped enums have no parent link: `enum.namespaces()` is `['']`
-  let enums := c.enums.map fun e => PyStmt.enum (cppClass ++ "::" ++ enumCpp [""] e.name) inst e.name e.enumerators true
-  let clsStmt :=
-    if cfg.ignore.contains cppClass then []
-    else
-      let items :=
-        (c.ctors.map fun k => ClassItem.init (k.args.map fun a => tyToCpp a.ctype) (pyArgsOf k.args))
-        ++ emitMethods cfg c.methods cppClass
-        ++ emitMethods cfg c.statics cppClass
-        ++ (c.dunders.map fun d => ClassItem.dunder d.1 cppClass (sigOf d.2) (pyArgsOf d.2))
-        ++ (c.props.map fun p => ClassItem.prop p.ctype.quals.isConst p.name cppClass)
-        ++ emitOps c.ops cppClass
-      [PyStmt.cls cppClass (c.parentClass.map tnToCpp) (moduleVar cfg c.nsPath) c.name
-        (if c.enums.isEmpty then none else some inst) items]
-  clsStmt ++ enums
+  (if cfg.ignore.contains c.toCpp then [] else [classStmt cfg c]) ++ classEnums c
 
 /-- `_add_namespaces('', namespaces)` -/
 def addNamespacesEmpty (namespaces : List String) : String :=
